@@ -17,22 +17,13 @@ package babbage
 import (
 	"fmt"
 
+	"github.com/blinklabs-io/gouroboros/ledger/alonzo"
 	"github.com/blinklabs-io/gouroboros/ledger/common"
 	"github.com/blinklabs-io/gouroboros/ledger/shelley"
 )
 
-type TooManyCollateralInputsError struct {
-	Provided uint
-	Max      uint
-}
-
-func (e TooManyCollateralInputsError) Error() string {
-	return fmt.Sprintf(
-		"too many collateral inputs: provided %d, maximum %d",
-		e.Provided,
-		e.Max,
-	)
-}
+// TooManyCollateralInputsError is shared with Alonzo, where the limit was introduced
+type TooManyCollateralInputsError = alonzo.TooManyCollateralInputsError
 
 type IncorrectTotalCollateralFieldError struct {
 	Provided        uint64
